@@ -272,7 +272,19 @@ var templates = []template{
 		return "t1 := time.Now().Add(time.Hour)\n" + note(g.Int()) + "d := t1.Sub(time.Now())\n" + note("d > 0")
 	}},
 	{check: "S1025", gen: func(g *gen) string {
-		switch g.rng.IntN(5) {
+		switch g.rng.IntN(8) {
+		case 5, 6, 7:
+			// the cross product underlying type x method set: what %s prints is
+			// decided by Formatter > error > Stringer > underlying value
+			typ := g.pick("nerr", "berr", "nstr", "nfmt", "nboth", "bstr", "bplain")
+			arg := "(" + g.Str() + ")"
+			if typ[0] == 'b' {
+				arg = "(" + g.Bytes() + ")"
+			}
+			if g.rng.IntN(2) == 0 {
+				return "tv := " + typ + arg + "\n" + note(`fmt.Sprintf("%s", tv)`) + note(g.Int())
+			}
+			return note(`fmt.Sprintf("%s", `+typ+arg+`)`) + note(g.Int())
 		case 0:
 			return note(`fmt.Sprintf("%s", `+g.Str()+`)`) + note(g.Int())
 		case 1:
@@ -502,6 +514,33 @@ type errstr struct{ v int }
 
 func (e errstr) String() string { return "as-stringer" }
 func (e errstr) Error() string  { return "as-error" }
+
+type nerr string
+
+func (e nerr) Error() string { return "nerr-as-error" }
+
+type berr []byte
+
+func (e berr) Error() string { return "berr-as-error" }
+
+type nstr string
+
+func (e nstr) String() string { return "nstr-as-stringer" }
+
+type bstr []byte
+
+func (e bstr) String() string { return "bstr-as-stringer" }
+
+type bplain []byte
+
+type nboth string
+
+func (e nboth) String() string { return "nboth-as-stringer" }
+func (e nboth) Error() string  { return "nboth-as-error" }
+
+type nfmt string
+
+func (e nfmt) Format(f fmt.State, c rune) { f.Write([]byte("nfmt-as-formatter")) }
 
 type inner struct {
 	F1 int
